@@ -180,6 +180,49 @@ def witness_holds(prog, w):
     return True
 
 
+def fingerprint(fn, key):
+    """what stays the same when the function around a panic site is renamed, extracted or inlined:
+    the source file, the kind of site and its message / callee"""
+    parts = key.split("|")
+    return [fn.file, parts[1] if len(parts) > 1 else "", parts[2] if len(parts) > 2 else ""]
+
+
+def _moved_sites(prog, rule, scope, sites, audited, baseline):
+    """{new site key: the key it was audited (or recorded as a known finding) under}.  A site whose
+    key is in no table is matched with a table entry that no longer exists in the tree when both have
+    the same fingerprint (file, kind, message) - at most as many as have disappeared.  The
+    fingerprints of the table entries were recorded when they were audited
+    (tables/panic_fingerprints.json)."""
+    path = os.path.join(VERIF, "tables", "panic_fingerprints.json")
+    try:
+        fps = json.load(open(path)).get(scope, {})
+    except FileNotFoundError:
+        return {}
+    kf = set()
+    try:
+        for f in json.load(open(os.path.join(VERIF, "known_findings.json"))).get("findings", []):
+            if f["key"].startswith(rule + ":"):
+                kf.add(f["key"].split(":", 1)[1])
+    except FileNotFoundError:
+        pass
+    tabled = set(audited) | set(baseline) | kf
+    gone = {}
+    for k in sorted(tabled):
+        if k not in sites and k in fps:
+            gone.setdefault(tuple(fps[k]), []).append(k)
+    alias = {}
+    for k in sorted(sites):
+        if k in tabled:
+            continue
+        fn, _line, b, kind = sites[k]
+        if discharged_locally(prog, fn, b, kind):
+            continue
+        pool = gone.get(tuple(fingerprint(fn, k)))
+        if pool:
+            alias[k] = pool.pop(0)
+    return alias
+
+
 def r_audit(ctx, rule, scope):
     prog = ctx.prog
     path = os.path.join(VERIF, "tables", "panic_baseline.json")
@@ -193,8 +236,11 @@ def r_audit(ctx, rule, scope):
         if k not in sites:
             raise CheckError("%s: witnessed panic site %s is no longer enumerated" % (rule, k))
     counts = {"J1": 0, "J2": 0, "U": 0, "new": 0}
-    for key in sorted(sites):
-        fn, line, b, kind = sites[key]
+    alias = _moved_sites(prog, rule, scope, sites, audited, baseline)
+    for site_key in sorted(sites):
+        fn, line, b, kind = sites[site_key]
+        # a site that only moved (function renamed / extracted / inlined) keeps the key it was audited under
+        key = alias.get(site_key, site_key)
         okey = "%s:%s" % (rule, key)
         loc = "%s:%s" % (fn.file, line)
         j1 = discharged_locally(prog, fn, b, kind)
